@@ -2,15 +2,15 @@ SPECIFICATION Spec
 CONSTANTS
   Cap = 2
   K = 2
-  Types = {"a", "b"}
-  Ctxs = {"c1"}
-  MaxEv = 4
+  Types = {"a"}
+  Ctxs = {"c1", "c2"}
+  MaxEv = 5
   MaxCrash = 2
   MaxFlush = 2
   MaxCompact = 2
-  Fix = {}
-  FlushCrash = {"start", "partial", "written", "published", "cleared"}
-  CompactCrash = {"out", "idx", "norecl"}
+  Fix = {"prune-by-content", "replay-skips-published", "live-from-index", "reads-use-index", "alloc-past-wal", "replay-sorted-by-id", "alloc-fresh-dirs"}
+  FlushCrash = {}
+  CompactCrash = {}
   QuiescentCrash = TRUE
   CleanRestarts = TRUE
 INVARIANTS Durable NoForeign ReplayInOrder IndexedComplete FreshL0
